@@ -479,14 +479,14 @@ func runCase(b *rt.Built, s *m.Service, meth *m.Method, c *caseRec) string {
 	}
 	obs, err := b.H.Do(hc)
 	if err != nil {
-		return "INCONCLUSIVE harness: " + err.Error()
+		return "INCONCLUSIVE: harness: " + err.Error()
 	}
 	if obs.Err != "" {
 		if strings.Contains(obs.Err, "conversion") && c.Kind != "valid" {
 			stats.Class("skipped:mutant-not-expressible-in-go")
 			return ""
 		}
-		return "INCONCLUSIVE harness: " + obs.Err
+		return "INCONCLUSIVE: harness: " + obs.Err
 	}
 	if obs.Panic != "" {
 		return "panic in generated client code: " + firstLines(obs.Panic, 24)
